@@ -33,9 +33,26 @@ def main():
     ap.add_argument("--keep-as", default=None)
     ap.add_argument("--needs", default="")
     ap.add_argument("--skip-confirm", action="store_true")
+    ap.add_argument("--from-seeded", default=None, help="re-run a kept change: a temporary worktree of /repo HEAD is created, "
+                    "seeded/<id>/patch.diff applied, the checks run against it, and the worktree removed")
     a = ap.parse_args()
     wt = f"/tmp/mut/{a.prop}"
     diff, demo = f"{wt}/mut{a.n}.diff", f"demo{a.n}.py"
+    tmp_wt = None
+    if a.from_seeded:
+        tmp_wt = wt = f"/tmp/seedwt_{a.from_seeded}_{os.getpid()}"
+        sh(f"git -C /repo worktree add -q --detach {wt} HEAD")
+        diff = os.path.join(HERE, "seeded", a.from_seeded, "patch.diff")
+        shutil.copy(os.path.join(HERE, "seeded", a.from_seeded, "demo.py"), os.path.join(wt, f"demo{a.n}.py"))
+        a.keep_as = a.keep_as or a.from_seeded
+    try:
+        return _main(a, wt, diff, demo)
+    finally:
+        if tmp_wt:
+            sh(f"git -C /repo worktree remove --force {tmp_wt}")
+
+
+def _main(a, wt, diff, demo):
     meta = {"property": a.prop, "patch": f"mut{a.n}.diff", "demo": demo, "needs": a.needs, "ran": []}
     if not a.skip_confirm:
         sh("git checkout -- . ", cwd=wt)
@@ -81,8 +98,9 @@ def main():
     if a.keep_as:
         d = os.path.join(HERE, "seeded", a.keep_as)
         os.makedirs(d, exist_ok=True)
-        shutil.copy(diff, os.path.join(d, "patch.diff"))
-        shutil.copy(os.path.join(wt, demo), os.path.join(d, "demo.py"))
+        if os.path.abspath(diff) != os.path.abspath(os.path.join(d, "patch.diff")):
+            shutil.copy(diff, os.path.join(d, "patch.diff"))
+            shutil.copy(os.path.join(wt, demo), os.path.join(d, "demo.py"))
         mp = os.path.join(d, "meta.json")
         if os.path.exists(mp):
             old = json.load(open(mp))
